@@ -45,7 +45,7 @@ Build == /\ pc = "chosen"
                                  LET y == <<VAdd(MV(ops'[n].W, x[1]), VSub(tvec'[n][x[2]], tvec'[n][x[3]])), amap'[n][x[2]], amap'[n][x[3]]>>
                                  IN y \in X => (y = x \/ KeyLess(Key(RL, x), Key(RL, y)))}
                    /\ shells' = {sh \in ProjShells : ShellAllowedIn(lat, SG, sh)}
-                   /\ mixed' = MixedCentreSites(sites, SG)
+                   /\ mixed' = MixedCentreSites(lat, sites, SG)
               ELSE /\ pc' = "excluded" /\ UNCHANGED <<ops, amap, tvec, tmap, irr, shells, mixed>>
          /\ UNCHANGED <<lat, sites, rlist>>
 Next == Build
